@@ -1,6 +1,6 @@
 """C10 — stale or undecodable stored traces are skipped, never fatal.
 Engine E1+E4 (differential): stores populated directly with rows = every subset of valid rows x every subset (size <= 2,
-thorough <= 3) of 28 stale-row kinds x insertion orders, commands stub / stub -v / stub <qualname specifier> / apply;
+thorough <= 3) of 30 stale-row kinds x insertion orders, commands stub / stub -v / stub <qualname specifier> / apply;
 oracle: output equals the output obtained from the decodable rows alone, exit status 0, skipped rows counted exactly."""
 from __future__ import annotations
 
@@ -20,7 +20,7 @@ from mcheck.core.runner import VERIF, Ctx, Result, Violation
 
 ID = "C10"
 RULE = (
-    "rows = every subset of 4 valid rows x every subset of size 0..2 (thorough 0..3) of 28 stale kinds (module removed, "
+    "rows = every subset of 4 valid rows x every subset of size 0..2 (thorough 0..3) of 30 stale kinds (module removed, "
     "submodule removed, parent not a package, function removed / now int / class / settable property / property without "
     "getter / local scope, argument / return / yield class removed, class name bound to int / dict / None / instance, "
     "nested in generics and TypedDict fields, unknown parameter names) x 3 insertion orders x commands {stub, stub -v, "
@@ -82,6 +82,8 @@ STALE: Dict[str, Tuple[Tuple, bool, Optional[Tuple]]] = {
     "class-name-now-none": (row(M, "good2", {"a": STR, "b": STR}, T(M, "none_val")), False, None),
     "class-name-now-instance": (row(M, "Cls.meth", {"self": T(M, "Cls"), "x": T(M, "an_instance")}, INT), False, None),
     "class-name-now-function": (row(M, "good1", {"a": T(M, "good2")}, INT), False, None),
+    "non-type-nested-in-generic": (row(M, "good1", {"a": T("typing", "List", [T(M, "now_int")])}, INT), False, None),
+    "non-type-nested-in-dict-generic": (row(M, "good2", {"a": T("typing", "Dict", [STR, T(M, "not_a_type")]), "b": STR}, STR), False, None),
     "stale-class-nested-in-generic": (row(M, "good1", {"a": T("typing", "List", [T(M, "GoneClass")])}, INT), False, None),
     "stale-class-in-typed-dict-field": (row(M, "good1", {"a": TD({"required_fields": TD({"k": T(M, "GoneClass")}), "optional_fields": TD({})})}, INT), False, None),
     "unknown-parameter-names": (row(M, "good1", {"zzz": STR, "a": STR}, STR), True, row(M, "good1", {"a": STR}, STR)),
@@ -158,6 +160,7 @@ def check_case(res: Result, ctx: Ctx, db: str, pkgdir: Path, vmask: int, kinds: 
             if tk == k:
                 cmds.append(("stub-removed-module", ["stub", tmod], tmod))
                 cmds.append(("stub-removed-module-v", ["-v", "stub", tmod], tmod))
+                cmds.append(("apply-removed-module", ["apply", tmod], tmod))
 
     def selected(rows: List[Tuple], argv: List[str], target: str) -> List[Tuple]:
         spec = argv[-1].split(":", 1)[1] if ":" in argv[-1] else None
